@@ -1345,6 +1345,33 @@ def conditioning(ctx, yaw, root) -> None:
     hist = yaw.HistData.from_catalog(cat, cfg, max_workers=1)
     products.append(("HistData", "gridded_catalog_equal_patches", hist, np.asarray(hist.samples, dtype=np.float64)))
     products.append(("HistData", "gridded_catalog_equal_patches_normalised", hist.normalised(), None))
+    # a catalog with a huge dynamic range of weights: one object outweighs everything else by 1e18 - the sample that
+    # leaves its patch out must be the plain sum over the OTHER patches (not 'total minus patch')
+    NPH = 5
+    rngh = np.random.default_rng(ctx.seed + 9)
+    pidh = np.repeat(np.arange(NPH), 8)
+    wh = rngh.uniform(0.5, 20.0, len(pidh))
+    zh = rngh.uniform(0.1, 1.0, len(pidh))
+    wh[17], zh[17] = 1e18, 0.5          # patch 2, middle bin
+    dfh = pd.DataFrame(dict(ra=10.0 + 2.0 * pidh + rngh.uniform(0, 0.5, len(pidh)), dec=rngh.uniform(-0.2, 0.2, len(pidh)), w=wh, z=zh, pid=pidh))
+    cath = yaw.Catalog.from_dataframe(root / "heavy", dfh, ra_name="ra", dec_name="dec", weight_name="w", redshift_name="z", patch_name="pid",
+                                      overwrite=True, max_workers=1)
+    histh = yaw.HistData.from_catalog(cath, cfg, max_workers=1)
+    edges_h = np.asarray(cfg.binning.edges)
+    idx_h = np.digitize(zh, edges_h, right=True)
+    ctx.evaluated(1, ("conditioning", "HistData", "one_object_of_weight_1e18"))
+    ctx.validated(1)
+    for k in range(NPH):
+        for b in range(1, len(edges_h)):
+            want = math.fsum(w_ for w_, p_, i_ in zip(wh, pidh, idx_h) if p_ != k and i_ == b)
+            got = float(histh.samples[k, b - 1])
+            if not (abs(got - want) <= 1e-9 * abs(want) + 1e-12):
+                ctx.violation("C03|HistData.from_catalog|weights_of_huge_dynamic_range|sample_is_not_the_sum_over_the_other_patches",
+                              dict(sample=k, bin=b - 1, got=got, expected=want, heavy_object=dict(patch=2, weight=1e18)))
+                break
+        else:
+            continue
+        break
     eps = np.finfo(np.float64).eps
     for kind, name, obj, smp in products:
         smp = np.asarray(obj.samples, dtype=np.float64)
